@@ -142,6 +142,9 @@ class C04(Property):
                 break
             feats = {"exec": 4} if rng.random() < 0.3 else ({"loop": 3} if rng.random() < 0.3 else None)
             spec = wfgen.gen_spec(rng, size=rng.randint(2, 12), features=feats)
+            if i < len(wfgen.CORPUS):
+                spec = json.loads(json.dumps(wfgen.CORPUS[i]))
+                ctx.corpus_replayed += 1
             failing = rng.random() < 0.5
             fspec = wfgen.choose_failure(rng, spec) if failing else None
             if fspec is None:
